@@ -122,7 +122,8 @@ package fiber
 // caller of Use). NOTE: joined-prefixes-distinct cannot be met by a sub-app mounted at "/" that has itself a
 // sub-app at "/" (joinedPath("/", "") == joinedPath("/", "/") == "/"): known finding key-collision.
 //@ macro mountable(app, sub) = app.mountFields != nil && app.mountFields.appList != nil && sub.mountFields != nil && sub.mountFields.appList != nil && app.mountFields.appList != sub.mountFields.appList &&
-//@ ..   forallS(a, forallS(b, indom(sub.mountFields.appList, a) && indom(sub.mountFields.appList, b) && a != b ==> forallS(p, joinedPath(p, a) != joinedPath(p, b))))
+//@ ..   forallS(a, forallS(b, indom(sub.mountFields.appList, a) && indom(sub.mountFields.appList, b) && a != b ==> forallS(p, joinedPath(p, a) != joinedPath(p, b)))) &&
+//@ ..   indom(sub.mountFields.appList, "") && sub.mountFields.appList[""] == sub
 //@ func (*Group).Use
 //@   panics
 //@   requires group-of-an-app: grp.app != nil
@@ -209,8 +210,39 @@ package fiber
 // the arrays that held the stacks at entry are never written (a splice builds a new array)
 //@ macro entryKept(app) = forall(mm, 0, len(app.stack), forall(ii, 0, old(len(app.stack[mm])), old(app.stack[mm])[ii] == old(app.stack[mm][ii])))
 
+// "Has sub-apps" is the test len(list) > 1 (the list always holds the application itself under ""): the guard of the
+// start-up processing and of the recursions (hasSubs, zz_contracts_c08_verif.go, is the same expression).
 //@ func (*App).hasMountedApps
+//@   props C04 C08
 //@   pure
+//@   ensures more-than-the-app-itself: result == (len(app.mountFields.appList) > 1)
+
+// ---- 5. start-up: when the two once-only steps are spent --------------------------------------------------------
+// mountStartupProcess runs at EVERY start (Handler(), Listen, Test, ...). Its two steps - completing the mount list
+// (appendSubAppLists + generateAppListKeys) and splicing the sub-apps' routes (processSubAppsRoutes) - are guarded by a
+// sync.Once each, so each runs once per application. They must not be spent by a start at which there is nothing to
+// process: an application that was started without sub-apps still has both steps for a mount made afterwards
+// ("mounting == registering under the prefix" also holds for a Group registered after the first start: register sets
+// routesRefreshed and the tree is rebuilt). Stated as: no Once.Do is reached unless the application has sub-apps; when
+// it has, both are offered, the list completion first.
+//@ func (*App).mountStartupProcess
+//@   props C04 C08
+//@   requires list-made: app.mountFields != nil && app.mountFields.appList != nil
+//@   atcall @sync.(*Once).Do: only-when-there-is-a-sub-app: hasSubs(app)
+//@   atcall @sync.(*Once).Do: list-completion-then-splice: (o == &app.mountFields.subAppsProcessed && !called(@sync.(*Once).Do)) || (o == &app.mountFields.subAppsRoutesAdded && called(@sync.(*Once).Do))
+//@   ensures no-once-spent-without-sub-apps: !hasSubs(app) ==> !called(@sync.(*Once).Do)
+//@   ensures both-steps-offered-with-sub-apps: hasSubs(app) ==> called(@sync.(*Once).Do)
+
+// The list-completion step: when it runs, the root's mount list is closed afterwards (closedList, C08 file: every
+// sub-app of every listed app is listed under the joined prefix, whatever the order in which the mounts were made),
+// nothing that was listed is dropped or replaced, and the key list for Render is generated from the completed list.
+//@ func (*App).mountStartupProcess$1
+//@   props C08 C04
+//@   preserves list-made: app.mountFields != nil && app.mountFields.appList != nil
+//@   modifies heap(MD_string_p_fiber_App), heap(MV_string_p_fiber_App), heap(E_string), mountFields.appListKeys
+//@   atcall (*App).appendSubAppLists: walks-the-roots-own-list-from-the-top: arg0 == app && appList == app.mountFields.appList && len(parent) == 0
+//@   atcall (*App).generateAppListKeys: keys-of-the-completed-list: arg0 == app && called((*App).appendSubAppLists) && closedList(app)
+//@   ensures mount-list-closed: closedList(app)
 
 // The recursive splice of a sub-application (induction hypothesis over the mount tree, ASSUMED: the contracts do not
 // carry the induction): it writes the sub-application's own tables and route positions only, and leaves no marker.
